@@ -2,7 +2,7 @@
 import os
 from lib import common
 import tables
-import pyk2coq, sites
+import pyk2coq, sites, pyinst
 
 
 def regenerate():
@@ -17,4 +17,7 @@ def regenerate():
     sv, _ = sites.sites_v(common.REPO)
     if common.write_if_changed(os.path.join(common.GEN, "SiteTable.v"), sv):
         changed.append("SiteTable.v")
+    iv, _ = pyinst.inst_kernels_v(common.REPO)
+    if common.write_if_changed(os.path.join(common.GEN, "InstKernels.v"), iv):
+        changed.append("InstKernels.v")
     return changed
